@@ -13,6 +13,19 @@
  *                   source is deep-copied once more (a tree WITH a history as copy source)
  *   H <a> <ha> <b> <hb>  both trees get a history (mutations joined by ';', '-' = none);
  *                   equal both ways and on themselves; deep copy of a' compared with a', b'
+ *   Y <a> <rules> <tags>  deep copy through a caller-supplied json_c_shallow_copy_fn that
+ *                   wraps json_c_shallow_copy_default and answers as scripted:
+ *                   rules = '-' | <cond>=<ans>;...  (first match wins, default 1),
+ *                   ans = 1 | 2 (carries retained text itself) | T (2 + sets application
+ *                   userdata on the copy) | F (-1 before creating the node) | G (-1 after);
+ *                   cond = atoms joined by '&': * | t<o|a|s|i|d|b> type | p<o|a|r> parent type |
+ *                   d<n> depth = n | D<n> depth >= n | i<n> index in parent array |
+ *                   k<hexkey|-> key in parent object | m<k>,<r> call number mod k = r |
+ *                   c<n> call number = n.  tags = '-' | cond;... : source nodes (other than
+ *                   doubles) that carry application userdata before the copy.
+ *                   Prints rc, number of callback calls, whether *dst is NULL, and on success
+ *                   equal both ways, dumps, node counts, shared addresses, identical
+ *                   serializations (of 6), tags found on the copy; live blocks at the end.
  * mut = <path>:<op>, path = (/i<idx> | /k<hexkey|->)*,
  * op = A<jv> | P<hexkey|->=<jv> | K<hexkey|-> | I<dec> | U<dec> | B<0|1> | S<hex|-> | D<16hex>
  *    | Z<idx>=<jv> (array_put_idx) | X<idx>,<count> (array_del_idx). */
@@ -225,6 +238,183 @@ static void run_copy(char *sa, char *mut)
 	printf(" | live=%ld", xa_live);
 }
 
+/* ---- scripted shallow-copy callback ---- */
+static char APP_TAG[] = "application tag";
+static struct {
+	const char *rules;
+	long calls;
+	struct { struct json_object *node; int depth; } tab[4096];
+	size_t ntab;
+} cbs;
+
+static char type_char(struct json_object *o)
+{
+	switch (json_object_get_type(o)) {
+	case json_type_object: return 'o';
+	case json_type_array: return 'a';
+	case json_type_string: return 's';
+	case json_type_int: return 'i';
+	case json_type_double: return 'd';
+	case json_type_boolean: return 'b';
+	default: return 'n';
+	}
+}
+
+struct node_ctx { char type, ptype; int depth; long idx; const char *key; long callno; };
+
+static int atom_match(const char *a, size_t len, const struct node_ctx *c)
+{
+	char buf[600];
+	if (len == 0 || len >= sizeof(buf)) return 0;
+	memcpy(buf, a, len); buf[len] = 0;
+	switch (buf[0]) {
+	case '*': return 1;
+	case 't': return buf[1] == c->type;
+	case 'p': return buf[1] == c->ptype;
+	case 'd': return c->depth == atoi(buf + 1);
+	case 'D': return c->depth >= atoi(buf + 1);
+	case 'i': return c->idx >= 0 && c->idx == atol(buf + 1);
+	case 'k': {
+		const char *p = buf + 1; size_t n; unsigned char *k; int r;
+		if (!c->key) return 0;
+		k = jv_hexordash(&p, &n);
+		r = strcmp((char *)k, c->key) == 0;
+		(free)(k);
+		return r; }
+	case 'm': { long k = atol(buf + 1); char *comma = strchr(buf, ','); return k > 0 && comma && c->callno % k == atol(comma + 1); }
+	case 'c': return c->callno == atol(buf + 1);
+	default: return 0;
+	}
+}
+static int cond_match(const char *cond, size_t len, const struct node_ctx *c)
+{
+	size_t i = 0;
+	while (i <= len) {
+		size_t j = i;
+		while (j < len && cond[j] != '&') j++;
+		if (!atom_match(cond + i, j - i, c)) return 0;
+		i = j + 1;
+	}
+	return 1;
+}
+/* rules: first matching cond decides; no match: '1'.  With want_ans = 0 the list is a plain
+ * list of conds and the result is 'y' / 'n'. */
+static char eval_rules(const char *rules, int want_ans, const struct node_ctx *c)
+{
+	const char *p = rules;
+	if (!strcmp(rules, "-")) return want_ans ? '1' : 'n';
+	while (*p) {
+		const char *e = strchr(p, ';');
+		size_t len = e ? (size_t)(e - p) : strlen(p);
+		if (want_ans) {
+			if (len >= 2 && p[len - 2] == '=' && cond_match(p, len - 2, c)) return p[len - 1];
+		} else if (cond_match(p, len, c)) return 'y';
+		p += len + (e ? 1 : 0);
+	}
+	return want_ans ? '1' : 'n';
+}
+
+static int depth_of(struct json_object *o)
+{
+	size_t i;
+	for (i = 0; i < cbs.ntab; i++) if (cbs.tab[i].node == o) return cbs.tab[i].depth;
+	return -1000;
+}
+
+static int scripted_copy(struct json_object *src, struct json_object *parent, const char *key, size_t index,
+                         struct json_object **dst)
+{
+	struct node_ctx c;
+	char ans;
+	int rc;
+	c.callno = cbs.calls++;
+	c.type = type_char(src);
+	c.ptype = parent ? type_char(parent) : 'r';
+	c.depth = parent ? depth_of(parent) + 1 : 0;
+	c.idx = (parent && c.ptype == 'a') ? (long)index : -1;
+	c.key = (parent && c.ptype == 'o') ? key : NULL;
+	if (cbs.ntab < 4096) { cbs.tab[cbs.ntab].node = src; cbs.tab[cbs.ntab].depth = c.depth; cbs.ntab++; }
+	ans = eval_rules(cbs.rules, 1, &c);
+	if (ans == 'F') return -1;
+	rc = json_c_shallow_copy_default(src, parent, key, index, dst);
+	if (rc < 0) return rc;
+	if (ans == 'G') return -1;                 /* the node stays in *dst: the library releases it */
+	if (ans != '2' && ans != 'T') return 1;
+	/* "2": this callback takes care of serializer / userdata itself */
+	if (c.type == 'd') {
+		if (src->_userdata)
+			json_object_set_serializer(*dst, (*dst)->_to_json_string, strdup((char *)src->_userdata), json_object_free_userdata);
+		return 2;
+	}
+	if (ans == 'T') json_object_set_userdata(*dst, APP_TAG, NULL);
+	return 2;
+}
+
+/* pre-order walk of the source: tag the nodes selected by the conds (same numbering as the calls) */
+static void tag_walk(struct json_object *o, const char *tags, char ptype, int depth, long idx, const char *key, long *counter)
+{
+	struct node_ctx c;
+	if (!o) return;
+	c.callno = (*counter)++; c.type = type_char(o); c.ptype = ptype; c.depth = depth; c.idx = idx; c.key = key;
+	if (c.type != 'd' && eval_rules(tags, 0, &c) == 'y') json_object_set_userdata(o, APP_TAG, NULL);
+	if (c.type == 'a') {
+		size_t i, n = json_object_array_length(o);
+		for (i = 0; i < n; i++) tag_walk(json_object_array_get_idx(o, i), tags, 'a', depth + 1, (long)i, NULL, counter);
+	} else if (c.type == 'o') {
+		struct lh_entry *e;
+		for (e = json_object_get_object(o)->head; e; e = e->next)
+			tag_walk((struct json_object *)lh_entry_v(e), tags, 'o', depth + 1, -1, (const char *)lh_entry_k(e), counter);
+	}
+}
+static size_t count_tags(struct json_object *o)
+{
+	size_t n = 0;
+	if (!o) return 0;
+	if (json_object_get_type(o) != json_type_double && o->_userdata == (void *)APP_TAG) n++;
+	if (json_object_get_type(o) == json_type_array) {
+		size_t i, len = json_object_array_length(o);
+		for (i = 0; i < len; i++) n += count_tags(json_object_array_get_idx(o, i));
+	} else if (json_object_get_type(o) == json_type_object) {
+		struct lh_entry *e;
+		for (e = json_object_get_object(o)->head; e; e = e->next) n += count_tags((struct json_object *)lh_entry_v(e));
+	}
+	return n;
+}
+
+static void run_cb_copy(char *sa, const char *rules, const char *tags)
+{
+	struct json_object *a = parse_tree(sa), *c = NULL;
+	long counter = 0;
+	int rc;
+	tag_walk(a, tags, 'r', 0, -1, NULL, &counter);
+	cbs.rules = rules; cbs.calls = 0; cbs.ntab = 0;
+	errno = 0;
+	rc = json_object_deep_copy(a, &c, scripted_copy);
+	printf("Y %d %ld %d ", rc, cbs.calls, c == NULL);
+	if (rc < 0) {
+		eq_dump(a);
+		json_object_put(c);
+	} else {
+		struct aset sa_set = {0}, sc_set = {0};
+		int i, same = 0;
+		printf("%d %d ", json_object_equal(a, c), json_object_equal(c, a));
+		eq_dump(a); putchar(' '); eq_dump(c);
+		collect(a, &sa_set); collect(c, &sc_set);
+		printf(" %zu %zu %zu", sa_set.n, sc_set.n, shared(&sa_set, &sc_set));
+		(free)(sa_set.v); (free)(sc_set.v);
+		for (i = 0; i < 6; i++) {
+			size_t la = 0, lc = 0;
+			const char *ta = json_object_to_json_string_length(a, FLAGS[i], &la);
+			const char *tc = json_object_to_json_string_length(c, FLAGS[i], &lc);
+			if (ta && tc && la == lc && memcmp(ta, tc, la) == 0) same++;
+		}
+		printf(" %d %zu", same, count_tags(c));
+		json_object_put(c);
+	}
+	json_object_put(a);
+	printf(" | live=%ld", xa_live);
+}
+
 void run_case(char *rest)
 {
 	char *tok[6] = {0}, *save = NULL, *t;
@@ -280,6 +470,8 @@ void run_case(char *rest)
 		}
 		json_object_put(a); json_object_put(b); json_object_put(c);
 		printf(" | live=%ld", xa_live);
+	} else if (n == 4 && !strcmp(tok[0], "Y")) {
+		run_cb_copy(tok[1], tok[2], tok[3]);
 	} else if (n == 3 && !strcmp(tok[0], "C")) {
 		run_copy(tok[1], tok[2]);
 	} else
